@@ -12,7 +12,7 @@ from simkit.pipe import Pipe, open_frontend
 
 ID = "C11"
 LEVEL = "exploration"
-RUNS = {"quick": 12000, "thorough": 400000}
+RUNS = {"quick": 60000, "thorough": 1200000}
 RULE = ("three scenario kinds per seed: (write) flat delimited serialization of an instrumented statement iterator, "
         "event-order invariants on pull/frame events plus a closed-loop input that releases statement i+1 only after "
         "the frame completed by statement i was handed over; (stall) a source that delivers frames 1..j (+ a partial "
